@@ -53,6 +53,15 @@ CLAIMED = {
              'HTML model of C08, outline generator. Known findings: kf_toc_empty, kf_setext_in_quote; one fix: commit (indent base).',
         technique='Coq proof (induction over token trees) + extracted-model correspondence; nesting clause by generator-oracle only',
         design='5/C19'),
+    'C15': dict(
+        text='Theorems for ALL texts: with only \\n as terminator the line list Document.__init__ prepares is the same for a string, a file object and '
+             'a list of terminator-free lines, and a final newline does not change it (non-empty text); the side condition is shown necessary '
+             '(form feed witness) and the one visible case (empty text) is stated. Everything downstream is a function of that list. Model tied by '
+             'capturing the list the real constructor hands to the tokenizer; oracle compares outputs over forms x 8 renderers and the CLI in subprocesses.',
+        note='Trusted: Coq kernel, extraction, hand-written model of splitlines/split/newline completion (correspondence-checked incl. \\r, \\f, \\x85 texts); '
+             'assumed: a text file iterates as its \\n-terminated pieces. CLI process I/O by subprocess runs only.',
+        technique='Coq proof (induction over strings) + extracted-model correspondence + CLI subprocess runs',
+        design='5/C15'),
 }
 
 NOT_YET = {}
